@@ -404,6 +404,10 @@ func (r *Run) Finish() int {
 				newViol += int(v)
 			}
 			stages[filepath.Base(p)] = sc
+			if ss, ok := sc["samples"].([]interface{}); ok && len(samples) == 0 && len(ss) > 0 {
+				cov["samples"] = ss
+				samples = ss
+			}
 		}
 		cov["evaluations"], cov["states"], cov["transitions"], cov["distinct_nontrivial"] = evals, states, trans, distinct
 		cov["traces_validated_against_impl"] = evals
